@@ -64,7 +64,11 @@ Step ==
           ELSE LET x   == Expected(e)
                    obs == ObsState(e)
                    ok  == /\ x.st = obs
-                          /\ (e.ev \in {"Post", "Retry", "Other"} => x.status = e.status /\ x.appended = e.appended)
+                          \* a session that is gone is refused with 404, or with 500 while the node cannot tell yet
+                          \* whether it ever existed (its own QUIT was the last entry processed; F21 repair)
+                          /\ (e.ev \in {"Post", "Retry", "Other"} =>
+                                 /\ (x.status = e.status \/ (x.status = 404 /\ e.status = 500))
+                                 /\ x.appended = e.appended)
                           /\ (e.ev = "Death" => e.appended) IN
                /\ before' = live
                /\ live' = IF e.ev = "Replica" THEN live ELSE obs      \* always the OBSERVED state
